@@ -3,7 +3,13 @@ import Mathlib.Analysis.SpecialFunctions.Trigonometric.Basic
 import Mathlib.Data.List.Dedup
 import Mathlib.Tactic.Ring
 import Mathlib.Tactic.Linarith
+import Mathlib.Tactic.NormNum
+import Mathlib.Tactic.Positivity
+import Mathlib.Analysis.SpecialFunctions.Sqrt
 import OrixProofs.Properties.C01
+import OrixProofs.Lemmas.SamplingBasic
+import OrixProofs.Lemmas.SamplingUV
+import OrixProofs.Lemmas.SamplingCube
 /-
 C19 — sampling grids lie in and cover their target region.
 
@@ -13,9 +19,28 @@ fundamental sample `from_euler(0, θ, π/2 − φ)` rotates the sample Z axis ex
 and azimuth φ; and the covering lemma: an `L`-Lipschitz image of a grid of mesh `h` covers the image of the domain within
 `L·h`.  The Lipschitz constants of the cubochoric / homochoric / Euler parametrisations are NOT proved, so the covering
 radius itself is measured on every run against method-specific multiples fixed in advance (MANIFEST category `other`).
+
+Sections 2–4 are about the MODEL of the deterministic S2 meshes (`OrixModel/Sampling.lean`, tied to
+`orix/sampling/S2_sampling.py` and `_polyhedral_sampling.py` by the correspondence sites of `harness/props/c19.py`), at
+ℝ and for ALL resolutions:
+  * UV mesh: defined for every legitimate input, unit vectors for every input, the chord identity/bound, steps ≤ resolution
+    from the integer ceilings, one-dimensional coverings, and THE COVERING THEOREM for `hemisphere="both"`, `offset=0`:
+    every direction has a mesh vector within chord `(r·π/180)/√2` — without pole-duplicate removal for every `r > 0`,
+    with it for every `r ≥ 0.002°` (below that `np.isclose(polar, π)` with its relative tolerance `1e-5` removes whole
+    rings next to the south pole and the bound is false; not a practical resolution: the mesh would have > 10¹⁰ nodes).
+    Other hemispheres / offsets: only "defined" and "unit" are proved.
+  * cube meshes: unit vectors and the count `6·(2·steps)² + 2` for all three grid types; for the normalized grid the
+    spacing `1/steps ≤ tan r`, "the six face lists and the two corners contain every lattice point of the cube surface",
+    and the covering theorem (chord ≤ tan(r)/√2) for `0 < r < 90°`; for `90° < r ≤ 135°` the code divides by zero
+    (proved for `r = 120°`; open finding C19-s2-tan-resolution-above-90).  The two spherified grids have NO covering
+    theorem (their face lattice is equiangular, spacing up to `2·r` near the face corners): measured only.
+  * spherified-edge grid: defined for every r > 0, equiangular edge points with angular step ≤ r (`_partial`).
+  * equal-area and hexagonal meshes: unit vectors only.  Icosahedral mesh: no model, no theorem (measured).
 -/
 namespace Orix.C19
-open Orix
+open Orix Scalar Sampling SamplingLemmas LatLemmas
+
+/-! ## 1. logical skeleton of the SO(3) samples, reduced sample, generic covering lemma -/
 
 /-- a fundamental-zone sample (`rot[rot < region].unique()`) contains only rotations inside the region … -/
 theorem sample_subset_region {α : Type} [DecidableEq α] (inside : α → Bool) (grid : List α) :
@@ -70,7 +95,381 @@ theorem covering_from_lipschitz {P T : Type} [PseudoMetricSpace P] [PseudoMetric
   calc dist (f x) (f g) ≤ L * dist x g := hf.dist_le_mul x g
     _ ≤ L * h := mul_le_mul_of_nonneg_left hd L.coe_nonneg
 
+/-! ## 2. UV mesh (`_sample_S2_uv_mesh_coordinates`, `_remove_pole_duplicates`, `sample_S2_uv_mesh`) -/
+
+/-- NO ERROR ON LEGITIMATE INPUT, COUNTS: for every resolution `r > 0`, offset in `[0, 1)`, hemisphere and endpoint flag
+the coordinates are defined, with `⌈360/r⌉` azimuth lines and `⌈range/r⌉ + 1` polar lines before the
+`polar <= polar_max` filter (`range` = 180 or 90 degrees) -/
+theorem uv_coordinates_defined (r : ℝ) (hr : 0 < r) (h : Hemisphere) (off : ℝ) (ho : 0 ≤ off) (ho1 : off < 1)
+    (ep : Bool) :
+    ∃ c, uvCoordinates r h off ep = .ok c ∧ c.stepsAzimuth = ⌈360 / r⌉.toNat
+      ∧ c.stepsPolar = (⌈((h.polarDeg.2 - h.polarDeg.1 : ℕ) : ℝ) / r⌉ + 1).toNat
+      ∧ c.azimuth.length = c.stepsAzimuth ∧ 1 ≤ c.stepsAzimuth ∧ 2 ≤ c.stepsPolar := by
+  refine ⟨_, uvCoordinates_real r hr h off ho ho1 ep, rfl, rfl, ?_, ?_, ?_⟩
+  · simp only [linspace_length]
+  · have : 0 < ⌈360 / r⌉ := Int.ceil_pos.mpr (by positivity)
+    simp only; omega
+  · have hrange : 0 < h.polarDeg.2 - h.polarDeg.1 := by cases h <;> simp [Hemisphere.polarDeg]
+    have : 0 < ⌈((h.polarDeg.2 - h.polarDeg.1 : ℕ) : ℝ) / r⌉ :=
+      Int.ceil_pos.mpr (div_pos (by exact_mod_cast hrange) hr)
+    simp only; omega
+
+theorem uv_mesh_defined (r : ℝ) (hr : 0 < r) (h : Hemisphere) (off : ℝ) (ho : 0 ≤ off) (ho1 : off < 1) (rm : Bool) :
+    ∃ vs, uvMesh r h off rm = .ok vs := by
+  simp only [uvMesh, uvMeshNodes, uvCoordinates_real r hr h off ho ho1 false]
+  exact ⟨_, rfl⟩
+
+/-- UNIT VECTORS, every input: whatever the resolution, hemisphere, offset and duplicate flag, every vector the UV mesh
+returns is the spherical direction `(sin θ cos φ, sin θ sin φ, cos θ)` of its node, of length exactly 1 -/
+theorem uv_mesh_unit (r : ℝ) (h : Hemisphere) (off : ℝ) (rm : Bool) (vs : List (Vec3 ℝ))
+    (hok : uvMesh r h off rm = .ok vs) :
+    ∀ v ∈ vs, Vec3.normSq v = 1 ∧ ∃ θ φ : ℝ, v = ⟨Real.cos φ * Real.sin θ, Real.sin φ * Real.sin θ, Real.cos θ⟩ := by
+  intro v hv
+  unfold uvMesh at hok
+  split at hok
+  · cases hok
+  · rename_i g _
+    cases hok
+    obtain ⟨⟨a, p⟩, _, rfl⟩ := List.mem_map.mp hv
+    rw [nodeVector_eq]
+    exact ⟨normSq_sph p a, p, a, rfl⟩
+
+/-- CHORD IDENTITY between two spherical directions -/
+theorem uv_chord_identity (θ φ θ' φ' : ℝ) :
+    Vec3.normSq (Vec3.sub (sph θ φ) (sph θ' φ'))
+      = 2 - 2 * Real.cos (θ - θ') + 2 * Real.sin θ * Real.sin θ' * (1 - Real.cos (φ - φ')) := chord_sq θ φ θ' φ'
+
+/-- CHORD BOUND: `‖u(θ,φ) − u(θ',φ')‖² ≤ (θ−θ')² + (φ−φ')²` -/
+theorem uv_chord_bound (θ φ θ' φ' : ℝ) :
+    Vec3.normSq (Vec3.sub (sph θ φ) (sph θ' φ')) ≤ (θ - θ') ^ 2 + (φ - φ') ^ 2 := chord_sq_le θ φ θ' φ'
+
+/-- STEPS ≤ RESOLUTION (from the integer ceilings), `hemisphere="both"`: the azimuthal step `2π/⌈360/r⌉` and the polar
+step `π/⌈180/r⌉` the code computes are at most `r·π/180` -/
+theorem uv_steps_le_resolution (r : ℝ) (hr : 0 < r) (off : ℝ) (ho : 0 ≤ off) (ho1 : off < 1) (ep : Bool) :
+    ∃ c, uvCoordinates r .both off ep = .ok c ∧ c.stepAzimuth ≤ r * Real.pi / 180 ∧ c.stepPolar ≤ r * Real.pi / 180 := by
+  refine ⟨_, uvCoordinates_real r hr .both off ho ho1 ep, ?_, ?_⟩
+  · have := stepAz_le hr; rw [nAz_cast hr] at this; exact this
+  · have := stepPol_le hr; rw [nPol_cast hr] at this
+    simp only [Hemisphere.polarDeg, Nat.sub_zero, Nat.cast_ofNat, deg2rad_real]
+    have e : (180 : ℝ) * (Real.pi / 180) = Real.pi := by ring
+    rw [e]; exact this
+
+/-- POLAR LINES COVER `[0, π]` within half a step (`both`, offset 0) -/
+theorem uv_polar_covered (r : ℝ) (hr : 0 < r) (ep : Bool) (θ : ℝ) (h0 : 0 ≤ θ) (h1 : θ ≤ Real.pi) :
+    ∃ c, uvCoordinates r .both (0 : ℝ) ep = .ok c ∧ ∃ p ∈ c.polar, |θ - p| ≤ c.stepPolar / 2 := by
+  obtain ⟨c, hc, -, -, -, hpol⟩ := uvCoordinates_both r hr
+  have hreal := uvCoordinates_real r hr .both 0 (le_refl _) (by norm_num) ep
+  have hreal' := uvCoordinates_real r hr .both 0 (le_refl _) (by norm_num) false
+  rw [hreal'] at hc
+  refine ⟨_, hreal, ?_⟩
+  obtain ⟨i, hi, hd⟩ := grid_cover (nPol r) (nPol_pos hr) Real.pi Real.pi_pos.le θ h0 h1
+  refine ⟨polLine r i, ?_, ?_⟩
+  · have : polLine r i ∈ c.polar := by
+      rw [hpol]; exact List.mem_map.mpr ⟨i, List.mem_range.mpr (by omega), rfl⟩
+    cases hc; exact this
+  · simp only [Hemisphere.polarDeg, Nat.sub_zero, Nat.cast_ofNat, deg2rad_real]
+    have e : (180 : ℝ) * (Real.pi / 180) = Real.pi := by ring
+    rw [e, ← nPol_cast hr]; exact hd
+
+/-- AZIMUTH LINES COVER `[0, 2π]` CYCLICALLY within half a step (`both`, offset 0, no endpoint): the nearest line is a
+grid azimuth `a` or its copy `a + 2π` (the same direction) -/
+theorem uv_azimuth_covered (r : ℝ) (hr : 0 < r) (φ : ℝ) (h0 : 0 ≤ φ) (h1 : φ ≤ 2 * Real.pi) :
+    ∃ c, uvCoordinates r .both (0 : ℝ) false = .ok c ∧
+      ∃ a ∈ c.azimuth, |φ - a| ≤ c.stepAzimuth / 2 ∨ |φ - (a + 2 * Real.pi)| ≤ c.stepAzimuth / 2 := by
+  obtain ⟨c, hc, -, -, haz, -⟩ := uvCoordinates_both r hr
+  have hreal := uvCoordinates_real r hr .both 0 (le_refl _) (by norm_num) false
+  have hstep : c.stepAzimuth = 2 * Real.pi / (nAz r : ℝ) := by
+    rw [hreal] at hc; cases hc; simp only [nAz_cast hr]
+  refine ⟨c, hc, ?_⟩
+  obtain ⟨j, hj, hd⟩ := grid_cover (nAz r) (nAz_pos hr) (2 * Real.pi) (by positivity) φ h0 h1
+  rcases Nat.lt_or_ge j (nAz r) with hlt | hge
+  · exact ⟨azLine r j, by rw [haz]; exact List.mem_map.mpr ⟨j, List.mem_range.mpr hlt, rfl⟩, Or.inl (by rw [hstep]; exact hd)⟩
+  · have hjN : j = nAz r := le_antisymm hj hge
+    have hN0 : ((nAz r : ℕ) : ℝ) ≠ 0 := by exact_mod_cast (nAz_pos hr).ne'
+    have e : ((nAz r : ℕ) : ℝ) * (2 * Real.pi / (nAz r : ℝ)) = 2 * Real.pi := by field_simp
+    refine ⟨azLine r 0, by rw [haz]; exact List.mem_map.mpr ⟨0, List.mem_range.mpr (nAz_pos hr), rfl⟩, Or.inr ?_⟩
+    have e2 : azLine r 0 + 2 * Real.pi = (j : ℝ) * (2 * Real.pi / (nAz r : ℝ)) := by
+      rw [azLine_zero, zero_add, hjN]; exact e.symm
+    rw [e2, hstep]; exact hd
+
+/-- membership in the full-sphere mesh: the vector of every grid node `(i, j)` that is not a pole duplicate (or of every
+node when duplicates are kept) is returned -/
+theorem uv_mesh_mem (r : ℝ) (hr : 0 < r) (rm : Bool) (vs : List (Vec3 ℝ)) (hok : uvMesh r .both (0 : ℝ) rm = .ok vs)
+    (i j : ℕ) (hi : i ≤ nPol r) (hj : j < nAz r) (hkeep : rm = true → poleDuplicate (azLine r j, polLine r i) = false) :
+    sph (polLine r i) (azLine r j) ∈ vs := by
+  obtain ⟨c, hc, -, -, haz, hpol⟩ := uvCoordinates_both r hr
+  simp only [uvMesh, uvMeshNodes, hc] at hok
+  cases hok
+  have hnode : (azLine r j, polLine r i) ∈ meshAP c.azimuth c.polar := by
+    rw [mem_meshAP, haz, hpol]
+    exact ⟨List.mem_map.mpr ⟨j, List.mem_range.mpr hj, rfl⟩, List.mem_map.mpr ⟨i, List.mem_range.mpr (by omega), rfl⟩⟩
+  rw [← nodeVector_eq]
+  apply List.mem_map.mpr
+  refine ⟨(azLine r j, polLine r i), ?_, rfl⟩
+  cases rm
+  · exact hnode
+  · simp only [if_true, removePoleDuplicates]
+    exact List.mem_filter.mpr ⟨hnode, by simp [hkeep rfl]⟩
+
+/-- COVERING THEOREM, grid with its pole duplicates (`remove_pole_duplicates=False`), `hemisphere="both"`, `offset=0`,
+EVERY resolution `r > 0` (degrees): every direction of the sphere has a mesh vector within squared chord
+`(r·π/180)²/2` -/
+theorem uv_grid_covers_sphere (r : ℝ) (hr : 0 < r) (vs : List (Vec3 ℝ))
+    (hok : uvMesh r .both (0 : ℝ) false = .ok vs) (v : Vec3 ℝ) (hv : Vec3.normSq v = 1) :
+    ∃ g ∈ vs, Vec3.normSq (Vec3.sub v g) ≤ (r * Real.pi / 180) ^ 2 / 2 := by
+  obtain ⟨θ, φ, h0, h1, h2, h3, rfl⟩ := exists_sph v hv
+  obtain ⟨i, j, hi, hj, hd⟩ := uv_node_near hr h0 h1 h2 h3.le
+  exact ⟨_, uv_mesh_mem r hr false vs hok i j hi hj (fun h => by cases h), hd⟩
+
+/-- POLE DUPLICATES LOSE NOTHING (`r ≥ 0.002°`): with and without `_remove_pole_duplicates` the mesh is the same SET
+of vectors -/
+theorem uv_pole_duplicates_lose_nothing (r : ℝ) (hr : 1 / 500 ≤ r) (vs vs' : List (Vec3 ℝ))
+    (hok : uvMesh r .both (0 : ℝ) true = .ok vs) (hok' : uvMesh r .both (0 : ℝ) false = .ok vs') :
+    ∀ v, v ∈ vs ↔ v ∈ vs' := by
+  have hr0 : 0 < r := by linarith
+  obtain ⟨c, hc, -, -, haz, hpol⟩ := uvCoordinates_both r hr0
+  intro v
+  constructor
+  · intro hv
+    simp only [uvMesh, uvMeshNodes, hc, if_true, Bool.false_eq_true, if_false] at hok hok'
+    cases hok; cases hok'
+    obtain ⟨n, hn, rfl⟩ := List.mem_map.mp hv
+    exact List.mem_map.mpr ⟨n, (List.mem_filter.mp hn).1, rfl⟩
+  · intro hv
+    have hok2 := hok'
+    simp only [uvMesh, uvMeshNodes, hc, Bool.false_eq_true, if_false] at hok2
+    cases hok2
+    obtain ⟨⟨a, p⟩, hn, rfl⟩ := List.mem_map.mp hv
+    rw [mem_meshAP, haz, hpol] at hn
+    obtain ⟨ha, hp⟩ := hn
+    obtain ⟨j, hj, rfl⟩ := List.mem_map.mp ha
+    obtain ⟨i, hi, rfl⟩ := List.mem_map.mp hp
+    have hj' := List.mem_range.mp hj
+    have hi' : i ≤ nPol r := by have := List.mem_range.mp hi; omega
+    obtain ⟨j', hj'', heq, hkeep⟩ := uv_kept_node hr hi' hj'
+    rw [nodeVector_eq, ← heq]
+    exact uv_mesh_mem r hr0 true vs hok i j' hi' hj'' (fun _ => hkeep)
+
+/-- COVERING THEOREM for `sample_S2_uv_mesh(r)` as called by `sample_S2` (`hemisphere="both"`, `offset=0`, pole
+duplicates removed or not), every resolution `r ≥ 0.002°`: every direction of the sphere has a mesh vector within
+squared chord `(r·π/180)²/2` -/
+theorem uv_mesh_covers_sphere (r : ℝ) (hr : 1 / 500 ≤ r) (rm : Bool) (vs : List (Vec3 ℝ))
+    (hok : uvMesh r .both (0 : ℝ) rm = .ok vs) (v : Vec3 ℝ) (hv : Vec3.normSq v = 1) :
+    ∃ g ∈ vs, Vec3.normSq (Vec3.sub v g) ≤ (r * Real.pi / 180) ^ 2 / 2 := by
+  have hr0 : 0 < r := by linarith
+  cases rm
+  · exact uv_grid_covers_sphere r hr0 vs hok v hv
+  · obtain ⟨vs', hok'⟩ := uv_mesh_defined r hr0 .both 0 (le_refl _) (by norm_num) false
+    obtain ⟨g, hg, hd⟩ := uv_grid_covers_sphere r hr0 vs' hok' v hv
+    exact ⟨g, (uv_pole_duplicates_lose_nothing r hr vs vs' hok hok' g).mpr hg, hd⟩
+
+/-- the same as a chord DISTANCE: `‖v − g‖ ≤ (r·π/180)/√2` -/
+theorem uv_mesh_covers_sphere_chord (r : ℝ) (hr : 1 / 500 ≤ r) (rm : Bool) (vs : List (Vec3 ℝ))
+    (hok : uvMesh r .both (0 : ℝ) rm = .ok vs) (v : Vec3 ℝ) (hv : Vec3.normSq v = 1) :
+    ∃ g ∈ vs, Vec3.norm (Vec3.sub v g) ≤ (r * Real.pi / 180) / Real.sqrt 2 := by
+  obtain ⟨g, hg, hd⟩ := uv_mesh_covers_sphere r hr rm vs hok v hv
+  refine ⟨g, hg, ?_⟩
+  have hρ : 0 ≤ r * Real.pi / 180 := by
+    have h1 := Real.pi_pos
+    have h2 : 0 < r := by linarith
+    positivity
+  simp only [Vec3.norm, sqrt_real]
+  calc Real.sqrt (Vec3.normSq (Vec3.sub v g)) ≤ Real.sqrt ((r * Real.pi / 180) ^ 2 / 2) := Real.sqrt_le_sqrt hd
+    _ = (r * Real.pi / 180) / Real.sqrt 2 := by
+        rw [Real.sqrt_div (sq_nonneg _), Real.sqrt_sq hρ]
+
+/-! ## 3. equal-area mesh -/
+
+/-- every vector of the equal-area mesh has length 1 (every input) -/
+theorem equal_area_mesh_unit (r : ℝ) (h : Hemisphere) (rm : Bool) (vs : List (Vec3 ℝ))
+    (hok : eaMesh r h rm = .ok vs) : ∀ v ∈ vs, Vec3.normSq v = 1 := by
+  intro v hv
+  unfold eaMesh at hok
+  split at hok
+  · cases hok
+  · cases hok
+    obtain ⟨⟨a, p⟩, _, rfl⟩ := List.mem_map.mp hv
+    rw [nodeVector_eq]; exact normSq_sph p a
+
+/-! ## 4. cube meshes -/
+
+/-- UNIT VECTORS: all three grid types, every resolution for which the code returns -/
+theorem cube_mesh_unit (r : ℝ) (t : GridType) (m : CubeMesh ℝ) (hok : cubeMesh r t = .ok m) :
+    ∀ v ∈ m.vectors, Vec3.normSq v = 1 := by
+  intro v hv
+  unfold cubeMesh at hok
+  split at hok
+  · cases hok
+  · cases hok
+    obtain ⟨p, hp, rfl⟩ := List.mem_map.mp hv
+    exact normSq_unit (lt_of_lt_of_le one_pos (normSq_cubePoint_pos hp))
+
+/-- COUNTS as closed formulas in the number of steps: `2·steps` points per edge, `6·(2·steps)² + 2` vectors (all three
+grid types, any scalar type — also the `Float` instance the driver runs) -/
+theorem cube_mesh_count {α : Type} [Scalar α] [HasCeil α] (r : α) (t : GridType) (m : CubeMesh α)
+    (hok : cubeMesh r t = .ok m) :
+    m.edge.length = (2 * m.steps).toNat ∧ m.vectors.length = 6 * ((2 * m.steps).toNat * (2 * m.steps).toNat) + 2 := by
+  unfold cubeMesh at hok
+  split at hok
+  · cases hok
+  · rename_i n g hg
+    cases hok
+    have hl := length_edgeGrid hg
+    exact ⟨hl, by simp only [List.length_map, length_cubePoints, hl]⟩
+
+/-- for a positive number of steps: `24·steps² + 2` vectors -/
+theorem cube_mesh_count_pos {α : Type} [Scalar α] [HasCeil α] (r : α) (t : GridType) (m : CubeMesh α)
+    (hok : cubeMesh r t = .ok m) (k : ℕ) (hk : m.steps = k) : m.vectors.length = 24 * k ^ 2 + 2 := by
+  have h := (cube_mesh_count r t m hok).2
+  rw [h, hk]
+  have : (2 * (k : ℤ)).toNat = 2 * k := by omega
+  rw [this]; ring
+
+/-- NORMALIZED CUBE, `0 < r < 90°`: defined, `steps = ⌈1/tan r⌉ ≥ 1`, and the SPACING `1/steps` of the square grid on
+every cube face is at most `tan r` -/
+theorem normalized_cube_defined (r : ℝ) (hr : 0 < r) (hr90 : r < 90) :
+    ∃ m, cubeMesh r .normalized = .ok m ∧ m.steps = ⌈1 / Real.tan (r * (Real.pi / 180))⌉ ∧ 1 ≤ m.steps
+      ∧ 1 / (m.steps : ℝ) ≤ Real.tan (r * (Real.pi / 180)) := by
+  refine ⟨{ steps := nCube r, edge := cubeEdge r, vectors := (cubePoints (cubeEdge r)).map Vec3.unit },
+    by simp only [cubeMesh, edgeGrid_normalized_real hr hr90], rfl, ?_, cubeSpacing_le hr hr90⟩
+  have := nCube_pos hr hr90
+  simp only; omega
+
+/-- COVERING THEOREM for the normalized cube mesh, `0 < r < 90°`: every direction of the sphere has a mesh vector
+within squared chord `tan²(r)/2` (the square lattice on the cube faces has spacing `≤ tan r`, the six face lists and
+two corners contain every lattice point of the surface, and the radial projection does not increase distances) -/
+theorem normalized_cube_covers_sphere (r : ℝ) (hr : 0 < r) (hr90 : r < 90) (m : CubeMesh ℝ)
+    (hok : cubeMesh r .normalized = .ok m) (v : Vec3 ℝ) (hv : Vec3.normSq v = 1) :
+    ∃ g ∈ m.vectors, Vec3.normSq (Vec3.sub v g) ≤ Real.tan (r * (Real.pi / 180)) ^ 2 / 2 := by
+  simp only [cubeMesh, edgeGrid_normalized_real hr hr90] at hok
+  cases hok
+  have hn := nCube_pos hr hr90
+  have hsp := cubeSpacing_le hr hr90
+  have hnr : (0 : ℝ) < (nCube r : ℝ) := by exact_mod_cast hn
+  set h := 1 / (nCube r : ℝ) with hh
+  have hh0 : 0 < h := by positivity
+  obtain ⟨k, hk, hx, hy, hz, hface⟩ := exists_cube_scale v hv
+  obtain ⟨a, ha1, ha2, hda, hap, ham⟩ := round_coord (nCube r) hn (k * v.x) hx
+  obtain ⟨b, hb1, hb2, hdb, hbp, hbm⟩ := round_coord (nCube r) hn (k * v.y) hy
+  obtain ⟨c, hc1, hc2, hdc, hcp, hcm⟩ := round_coord (nCube r) hn (k * v.z) hz
+  have hs : a = nCube r ∨ a = -(nCube r) ∨ b = nCube r ∨ b = -(nCube r) ∨ c = nCube r ∨ c = -(nCube r) := by
+    rcases hface with h1 | h1 | h1 | h1 | h1 | h1
+    · exact Or.inl (hap h1)
+    · exact Or.inr (Or.inl (ham h1))
+    · exact Or.inr (Or.inr (Or.inl (hbp h1)))
+    · exact Or.inr (Or.inr (Or.inr (Or.inl (hbm h1))))
+    · exact Or.inr (Or.inr (Or.inr (Or.inr (Or.inl (hcp h1)))))
+    · exact Or.inr (Or.inr (Or.inr (Or.inr (Or.inr (hcm h1)))))
+  have hq := lattice_mem_cubePoints hr hr90 a b c ⟨ha1, ha2⟩ ⟨hb1, hb2⟩ ⟨hc1, hc2⟩ hs
+  rw [← hh] at hq hda hdb hdc
+  set q : Vec3 ℝ := ⟨(a : ℝ) * h, (b : ℝ) * h, (c : ℝ) * h⟩ with hqdef
+  refine ⟨Vec3.unit q, List.mem_map.mpr ⟨q, hq, rfl⟩, ?_⟩
+  have hcontract := radial_contract v q hv k hk (normSq_cubePoint_pos hq)
+  refine le_trans hcontract ?_
+  -- the distance on the cube: one coordinate is hit exactly, the other two within half a spacing
+  have hone : ((nCube r : ℤ) : ℝ) * h = 1 := by rw [hh]; field_simp
+  have hsa := abs_le.mp hda
+  have hsb := abs_le.mp hdb
+  have hsc := abs_le.mp hdc
+  have hA : (k * v.x - (a : ℝ) * h) ^ 2 ≤ (h / 2) ^ 2 := by rw [← sq_abs]; exact pow_le_pow_left₀ (abs_nonneg _) hda 2
+  have hB : (k * v.y - (b : ℝ) * h) ^ 2 ≤ (h / 2) ^ 2 := by rw [← sq_abs]; exact pow_le_pow_left₀ (abs_nonneg _) hdb 2
+  have hC : (k * v.z - (c : ℝ) * h) ^ 2 ≤ (h / 2) ^ 2 := by rw [← sq_abs]; exact pow_le_pow_left₀ (abs_nonneg _) hdc 2
+  have hexact : k * v.x - (a : ℝ) * h = 0 ∨ k * v.y - (b : ℝ) * h = 0 ∨ k * v.z - (c : ℝ) * h = 0 := by
+    rcases hface with h1 | h1 | h1 | h1 | h1 | h1
+    · left; rw [hap h1, h1, hone]; ring
+    · left; rw [ham h1, h1]; push_cast; rw [neg_mul, hone]; ring
+    · right; left; rw [hbp h1, h1, hone]; ring
+    · right; left; rw [hbm h1, h1]; push_cast; rw [neg_mul, hone]; ring
+    · right; right; rw [hcp h1, h1, hone]; ring
+    · right; right; rw [hcm h1, h1]; push_cast; rw [neg_mul, hone]; ring
+  have hdist : Vec3.normSq (Vec3.sub (Vec3.smul k v) q) ≤ h ^ 2 / 2 := by
+    simp only [Vec3.normSq, Vec3.dot, Vec3.sub, Vec3.smul, hqdef]
+    rcases hexact with e | e | e
+    · rw [e]; nlinarith
+    · rw [e]; nlinarith
+    · rw [e]; nlinarith
+  have htan : h ^ 2 ≤ Real.tan (r * (Real.pi / 180)) ^ 2 := pow_le_pow_left₀ hh0.le hsp 2
+  linarith
+
+/-- COUNTER-EXAMPLE (open finding C19-s2-tan-resolution-above-90): at `r = 120°` the normalized-cube code computes
+`⌈1/tan 120°⌉ = ⌈-1/√3⌉ = 0` steps and divides by it -/
+theorem normalized_cube_raises_at_120 : cubeMesh (120 : ℝ) .normalized = .error .zeroDivision := by
+  have ht : Real.tan ((120 : ℝ) * (Real.pi / 180)) = -Real.sqrt 3 := by
+    have e : (120 : ℝ) * (Real.pi / 180) = Real.pi - Real.pi / 3 := by ring
+    rw [e, Real.tan_pi_sub, Real.tan_pi_div_three]
+  have h3 : 1 < Real.sqrt 3 := by
+    rw [show (1 : ℝ) = Real.sqrt 1 from Real.sqrt_one.symm]
+    exact Real.sqrt_lt_sqrt (by norm_num) (by norm_num)
+  have hc : ⌈1 / Real.tan ((120 : ℝ) * (Real.pi / 180))⌉ = 0 := by
+    rw [ht, Int.ceil_eq_iff]
+    have hpos : 0 < Real.sqrt 3 := by linarith
+    constructor
+    · push_cast
+      have : 1 / -Real.sqrt 3 = -(1 / Real.sqrt 3) := by ring
+      rw [this]
+      have : 1 / Real.sqrt 3 < 1 := by rw [div_lt_one hpos]; exact h3
+      linarith
+    · push_cast
+      have : 1 / -Real.sqrt 3 = -(1 / Real.sqrt 3) := by ring
+      rw [this]
+      have : 0 < 1 / Real.sqrt 3 := by positivity
+      linarith
+  have hn : numberOfEquidistantSteps (120 : ℝ) (Scalar.lit 1 : ℝ) = some 0 := by
+    simp only [numberOfEquidistantSteps, ceilInt_real, deg2rad_real, lit_real, Nat.cast_one, tan_real, hc]
+  simp only [cubeMesh, edgeGrid, hn, sampleLengthEquidistant, if_true]
+
+/-! ## 5. hexagonal mesh, spherified-edge cube grid -/
+
+/-- UNIT VECTORS of the hexagonal bipyramid mesh (every resolution for which the code returns): no point of the
+bipyramid is the origin, so the final `.unit` yields length 1 -/
+theorem hexagonal_mesh_unit (r : ℝ) (m : HexMesh ℝ) (hok : hexMesh r = .ok m) : ∀ v ∈ m.vectors, Vec3.normSq v = 1 := by
+  intro v hv
+  unfold hexMesh at hok
+  split at hok
+  · cases hok
+  · split at hok
+    · cases hok
+    · cases hok
+      obtain ⟨p, hp, rfl⟩ := List.mem_map.mp hv
+      exact normSq_unit (normSq_hexPoints_pos hp)
+
+/-- SPHERIFIED-EDGE GRID (`_partial`: no covering theorem for this mesh): defined for every `r > 0`, with
+`steps = ⌈(π/4)/(r·π/180)⌉ ≥ 1`; the points on the edge are `tan(i·step)`, `i = -steps..steps-1`, i.e. EQUIANGULAR as
+seen from the centre of the sphere along the face's mid-lines, with angular step `(π/4)/steps ≤ r·π/180`.
+Missing for a covering bound: away from the mid-lines the angular spacing of the product grid is not the step (up to
+about twice as large towards the face corners after projection); measured by the harness instead -/
+theorem spherified_edge_equiangular_partial (r : ℝ) (hr : 0 < r) :
+    ∃ m, cubeMesh r .spherifiedEdge = .ok m ∧ 1 ≤ m.steps ∧ Real.pi / 4 / (m.steps : ℝ) ≤ r * (Real.pi / 180) ∧
+      ∀ x ∈ m.edge, ∃ i : ℤ, -m.steps ≤ i ∧ i < m.steps ∧ Real.arctan x = (i : ℝ) * (Real.pi / 4 / (m.steps : ℝ)) := by
+  refine ⟨{ steps := nEdge r, edge := sphEdge r, vectors := (cubePoints (sphEdge r)).map Vec3.unit },
+    by simp only [cubeMesh, edgeGrid_spherifiedEdge_real], ?_, edgeStep_le hr, ?_⟩
+  · have := nEdge_pos hr; simp only; omega
+  · intro x hx
+    obtain ⟨i, hi, rfl⟩ := List.mem_map.mp hx
+    obtain ⟨h1, h2⟩ := mem_intRange.mp hi
+    exact ⟨i, h1, h2, arctan_edge_point hr h1 h2.le⟩
+
 /-! non-vacuity -/
 example : (([3, 1, 3, 2, 5] : List Nat).filter (fun n => decide (n < 4))).dedup = [1, 3, 2] := by decide
+
+/-- the hypotheses of the UV theorems hold at `r = 7.5°`: 48 azimuth lines, 25 polar lines, and the covering bound
+`(7.5·π/180)²/2` for the mesh `sample_S2(7.5, "uv")` returns -/
+example : nAz 7.5 = 48 ∧ nPol 7.5 = 24 := by
+  have e1 : (360 : ℝ) / 7.5 = ((48 : ℤ) : ℝ) := by norm_num
+  have e2 : (180 : ℝ) / 7.5 = ((24 : ℤ) : ℝ) := by norm_num
+  constructor
+  · unfold nAz; rw [e1, Int.ceil_intCast]; rfl
+  · unfold nPol; rw [e2, Int.ceil_intCast]; rfl
+example : ∃ vs, uvMesh (7.5 : ℝ) .both 0 true = .ok vs ∧
+    ∀ v, Vec3.normSq v = 1 → ∃ g ∈ vs, Vec3.normSq (Vec3.sub v g) ≤ (7.5 * Real.pi / 180) ^ 2 / 2 := by
+  obtain ⟨vs, h⟩ := uv_mesh_defined 7.5 (by norm_num) .both 0 (le_refl _) (by norm_num) true
+  exact ⟨vs, h, fun v hv => uv_mesh_covers_sphere 7.5 (by norm_num) true vs h v hv⟩
+/-- and of the cube theorem at `r = 45°`: `tan 45° = 1`, one step, 26 vectors -/
+example : ∃ m, cubeMesh (45 : ℝ) .normalized = .ok m ∧ m.steps = 1 ∧ m.vectors.length = 26 := by
+  obtain ⟨m, hm, hs, -, -⟩ := normalized_cube_defined 45 (by norm_num) (by norm_num)
+  have ht : Real.tan ((45 : ℝ) * (Real.pi / 180)) = 1 := by
+    rw [show (45 : ℝ) * (Real.pi / 180) = Real.pi / 4 by ring, Real.tan_pi_div_four]
+  have h1 : m.steps = 1 := by rw [hs, ht]; norm_num
+  exact ⟨m, hm, h1, (cube_mesh_count_pos 45 .normalized m hm 1 (by rw [h1]; rfl)).trans (by norm_num)⟩
 
 end Orix.C19
